@@ -169,6 +169,12 @@ def c14_case(draw, tier):
             off["group_first"] = t.names()[0]
         if which.startswith("join"):
             off["right"] = g.source(name="rj")
+    hidden_group = any(c not in {cc for _, cc in t.visible} for c in t.group)
+    if hidden_group and (off.get("ctx") == "summarize" or str(off.get("which", "")).startswith("summarize")):
+        # summarize on a table with a deselected grouping column is itself rejected (ValueError): that would be a
+        # second offender
+        case["mode"] = "skip"
+        return case
     case["offender"] = off
     case["_gen"] = {"skipped": g.skipped, "gen_rejects": g.gen_rejects, "classes": sorted(g.classes)}
     return case
